@@ -59,7 +59,20 @@ def generate(rng, tier, idx):
             edits.append({'m': 'add', 'p': '%s/%s-%d.ebuild' % (d, os.path.basename(d), rng.randrange(1, 9)),
                           'k': 'file', 'c': 'first ebuild', 'tag': 'EBUILD'})
     for _ in range(rng.choice([0, 1, 2, 3])):
-        k = rng.choice(['add-ebuild', 'add-aux', 'modify', 'del', 'add-package', 'add-eclass'])
+        k = rng.choice(['add-ebuild', 'add-aux', 'modify', 'del', 'add-package', 'add-eclass', 'add-dist'])
+        if k == 'add-dist' and pk:
+            # what the package tools do: a DIST line is appended to the package's Manifest (whatever its compression) out
+            # of band; usually something in the category changes in the same commit
+            d = rng.choice(pk)
+            edits.append({'m': 'append-dist', 'p': d, 'line': 'DIST %s-%d.tar.gz %d SHA512 %s' % (
+                os.path.basename(d), rng.randrange(1, 99), rng.randrange(1, 10**6), '%0128x' % rng.getrandbits(500))})
+            sib = [f for f in roles['files'] if os.path.dirname(f) == os.path.dirname(d)]
+            if sib and rng.random() < 0.7:
+                edits.append({'m': 'rewrite', 'p': rng.choice(sib), 'c': 'category file modified %d' % rng.randrange(999)})
+            elif rng.random() < 0.5:
+                edits.append({'m': 'add', 'p': os.path.dirname(d) + '/zz-newpkg/zz-newpkg-1.ebuild', 'k': 'file', 'c': 'ebuild', 'parents': True,
+                              'tag': 'EBUILD', 'new_package_dir': os.path.dirname(d) + '/zz-newpkg'})
+            continue
         if k == 'add-ebuild' and pk:
             d = rng.choice(pk)
             edits.append({'m': 'add', 'p': '%s/%s-%d.ebuild' % (d, os.path.basename(d), rng.randrange(10, 99)),
@@ -137,7 +150,7 @@ def run_update(w, seam, sc, create, opi):
         return cli_as_call(run_cli(argv))
 
 
-def check_policy(w, sc, roles, what):
+def check_policy(w, sc, roles, what, not_rewritten=()):
     """M-policy against the files on disk."""
     vs = []
     prof = sc['profile']
@@ -221,6 +234,10 @@ def check_policy(w, sc, roles, what):
         for e in ents:
             if e['tag'] == 'MANIFEST' and hashes is not None and set(e['sums']) != set(hashes):
                 vs.append(viol('policy.hashes', '%s: MANIFEST %s in %s has hashes %r, want %r' % (what, e['path'], p, sorted(e['sums']), hashes), sig='hashes'))
+        if p in not_rewritten:
+            # edited out of band and left alone by this update (nothing in it to change): order and compression are
+            # whatever the other tool left - the policy speaks about Manifests the update writes
+            continue
         if sort:
             raw = G.decompress(w.read(p), G.comp_of(p)).decode('utf8')
             keys = []
@@ -272,7 +289,20 @@ def execute(sc):
             steps.append(('update', False, sc['edits']))
         opi = 0
         for name, create, edits in steps:
+            oob = set()
             for e in edits:
+                if e.get('m') == 'append-dist':
+                    for n_ in G.MANIFEST_NAMES:
+                        mp_ = os.path.join(w.root, e['p'], n_)
+                        if os.path.isfile(mp_):
+                            with _o['open'](mp_, 'rb') as f_:
+                                t_ = G.decompress(f_.read(), G.comp_of(n_))
+                            with _o['open'](mp_, 'wb') as f_:
+                                f_.write(G.compress(t_ + (b'' if t_.endswith(b'\n') or not t_ else b'\n') + e['line'].encode() + b'\n', G.comp_of(n_)))
+                            counters['dist_lines_appended_out_of_band'] = counters.get('dist_lines_appended_out_of_band', 0) + 1
+                            oob.add(os.path.join(e['p'], n_))
+                            break
+                    continue
                 ok = w.mutate({k: v for k, v in e.items() if k not in ('tag', 'new_package_dir')})
                 if ok and e.get('m') == 'add':
                     roles['tags'][e['p']] = e.get('tag', 'DATA')
@@ -293,7 +323,8 @@ def execute(sc):
                 violations.append(viol('policy.update-failed', '%s failed on a well-formed repository: %s' % (what, describe(r) if r[0] != 'ok' else r[1]),
                                        sig='%s:%s' % (r[0], r[1])))
                 break
-            violations += check_policy(w, sc, roles, what)
+            wr_ = set(p_ for e_ in seam.write_events if e_[0] == opi - 1 for p_ in e_[2].split(' -> '))
+            violations += check_policy(w, sc, roles, what, not_rewritten=set(p_ for p_ in oob if p_ not in wr_))
             counters['policy_checked'] = counters.get('policy_checked', 0) + 1
             # default-profile loader verifies the result; model and auditor agree
             with seam:
